@@ -39,3 +39,22 @@ pub assume_specification<T, A: std::alloc::Allocator>[VecDeque::<T, A>::get](q: 
 pub assume_specification<T, A: std::alloc::Allocator>[VecDeque::<T, A>::front](q: &VecDeque<T, A>) -> (r: Option<&T>)
     ensures
         r == (if q@.len() > 0 { Some(&q@[0]) } else { None::<&T> });
+
+// ---- constructors (`Network::new_*`) ----
+// `crate::stable::build_hasher()` of /repo returns the fixed-seed `BuildHasher` of the Hashable* wrappers. Under
+// A-NET-WRAP the collections are std collections with the default hasher type, so the call is kept and given an
+// opaque stand-in; no contract mentions the hasher (vstd's `builds_valid_hashers` holds for `RandomState`).
+pub mod stable {
+    use super::*;
+    #[verifier::external_body] pub fn build_hasher() -> std::collections::hash_map::RandomState { std::collections::hash_map::RandomState::new() }
+}
+
+// `HashSet::with_hasher`: "Creates a new empty hash set which will use the given hasher to hash keys."
+pub assume_specification<T, S>[HashSet::<T, S>::with_hasher](hasher: S) -> (r: HashSet<T, S>)
+    ensures
+        r@ == Set::<T>::empty();
+
+// `HashMap::with_hasher`: "Creates an empty HashMap which will use the given hash builder to hash keys."
+pub assume_specification<K, V, S>[HashMap::<K, V, S>::with_hasher](hash_builder: S) -> (r: HashMap<K, V, S>)
+    ensures
+        r@ == Map::<K, V>::empty();
